@@ -286,7 +286,8 @@ def energy_for_power(rng, w):
 def cur(w):
     """row of the scenario's proposal in the last observation (or None)"""
     ps = w.last["props"]
-    return ps[w.cur_id - 1] if 1 <= w.cur_id <= len(ps) else None
+    p = ps[w.cur_id - 1] if 1 <= w.cur_id <= len(ps) else None
+    return p if p and p["live"] else None
 
 
 def block_to(w, target):
